@@ -985,7 +985,14 @@ func init() {
 		if !ok {
 			return "bad-args", true
 		}
-		for try := 0; try < 3; try++ {
+		tries, work := 3, 0
+		for _, d := range cfg.durs {
+			work += d
+		}
+		if work > 10000 { // more than 1 s of handler time: once
+			tries = 1
+		}
+		for try := 0; try < tries; try++ {
 			res := c20Execute(cfg)
 			if res.why != "" {
 				OracleFail(c20ClassWhy(res.why), map[string]interface{}{"op": "nsrun", "line": cfg.line(), "got": res.end, "detail": res.why, "trace": clip(res.trace)})
